@@ -19,21 +19,35 @@ Local Open Scope N_scope.
 
 (** output_is_render: whatever a pass writes is the template rendered with the values read from the
     sources in this very pass and the environment, at the key the template denotes (namespace overridden
-    by the template's); at most one object is written. *)
+    by the template's); at most one object is written. Object content is compared component-wise: one map
+    whose keys below 1000 are .data, 1000-1999 labels, 2000-2999 annotations. [follows d body]: every
+    rendered entry is in [d] with the rendered value and [d] has no .data entry beyond the rendered ones;
+    on the update path [d] may also carry label / annotation keys that only the existing target had
+    (labels.Merge(existing, rendered), template_reconciler.go:117-118: rendered keys win, existing-only
+    keys are KEPT - that is what the code on /repo does and what the model does). *)
 Theorem C18_output_is_render :
   forall (code : Type) (render : code -> data -> N -> rres) (scope_of : N -> option bool) (iv_res iv_opt : N)
          (w0 : world code) (ss : list (step code)) (t : tmpl code) (w' : world code) (r : pres),
     let w := final render scope_of ns_escalation iv_res iv_opt w0 ss in
     w_tmpl w = Some t -> t_del t = false -> pass render scope_of ns_escalation iv_res iv_opt w = (w', r) ->
     forall k d, In (k, d) (target_writes (p_evs r)) ->
-    exists cfg retry k0 orefs,
+    exists cfg retry k0 body orefs,
       scan scope_of (pfbad scope_of (t_ns t)) (w_store w) (t_ns t) (t_sources t) [] false = ScOk cfg retry /\
-      render (t_code t) cfg (w_env w) = RObj k0 d orefs /\
+      render (t_code t) cfg (w_env w) = RObj k0 body orefs /\ follows d body = true /\
       pf_violation scope_of ns_escalation (t_ns t) k0 orefs = false /\
       k = eff_key (t_ns t) k0 /\ target_writes (p_evs r) = [(k, d)].
 Proof. exact (fun code render scope_of iv_res iv_opt w0 ss =>
                 @output_is_render code render scope_of iv_res iv_opt (final render scope_of ns_escalation iv_res iv_opt w0 ss)). Qed.
 Print Assumptions C18_output_is_render.
+
+(** The two ways a target is written satisfy [follows]: a created object carries exactly the rendered content;
+    an updated one carries the rendered content merged over the labels / annotations of the existing object
+    ([merge_meta]: rendered keys win, keys only the existing object has are kept, .data is the rendered one). *)
+Theorem C18_written_content_follows_render :
+  forall ex body : data, follows body body = true /\ follows (merge_meta ex body) body = true /\
+    forall k, has_key k body = true -> dlookup k (merge_meta ex body) = dlookup k body.
+Proof. exact (fun ex body => conj (follows_refl body) (conj (follows_merge ex body) (merge_meta_body ex body))). Qed.
+Print Assumptions C18_written_content_follows_render.
 
 (** ... and conversely, when every source is readable and the rendered object passes the admission
     checks, the pass writes exactly that object, or returns an error (which controller-runtime retries). *)
@@ -45,7 +59,7 @@ Theorem C18_render_is_output :
     forall cfg retry k0 d orefs,
     scan scope_of (pfbad scope_of (t_ns t)) (w_store w) (t_ns t) (t_sources t) [] false = ScOk cfg retry ->
     render (t_code t) cfg (w_env w) = RObj k0 d orefs -> pf_violation scope_of ns_escalation (t_ns t) k0 orefs = false ->
-    p_err r <> 0 \/ target_writes (p_evs r) = [(eff_key (t_ns t) k0, d)].
+    p_err r <> 0 \/ exists d', target_writes (p_evs r) = [(eff_key (t_ns t) k0, d')] /\ follows d' d = true.
 Proof. exact (fun code render scope_of iv_res iv_opt w0 ss =>
                 @render_is_output code render scope_of iv_res iv_opt (final render scope_of ns_escalation iv_res iv_opt w0 ss)). Qed.
 Print Assumptions C18_render_is_output.
@@ -90,7 +104,7 @@ Theorem C18_optional_missing_retry :
     p_requeue r = iv_opt /\
     (exists s, In s (t_sources t) /\ s_opt s = true /\ lookup (nkey scope_of (src_key (t_ns t) s)) (w_store w) = None) /\
     (forall k0 d orefs, render (t_code t) cfg (w_env w) = RObj k0 d orefs -> pf_violation scope_of ns_escalation (t_ns t) k0 orefs = false ->
-       p_err r <> 0 \/ target_writes (p_evs r) = [(eff_key (t_ns t) k0, d)]).
+       p_err r <> 0 \/ exists d', target_writes (p_evs r) = [(eff_key (t_ns t) k0, d')] /\ follows d' d = true).
 Proof. exact (fun code render scope_of iv_res iv_opt w0 ss =>
                 @optional_missing_retry code render scope_of iv_res iv_opt (final render scope_of ns_escalation iv_res iv_opt w0 ss)). Qed.
 Print Assumptions C18_optional_missing_retry.
@@ -297,7 +311,7 @@ Theorem C18_quiescent_equals_render :
     p_err r = 0 -> (exists t', w_tmpl w = Some t' /\ t_invalid t' = 0) ->
     (forall k d, In (k, d) (target_writes (p_evs r)) -> forall s, In s (t_sources t) -> nkey scope_of (src_key (t_ns t) s) <> k) ->
     exists t' k d o, w_tmpl w = Some t' /\ expected render scope_of t' (w_store w) (w_env w) = Some (k, d) /\
-                     lookup k (w_store w) = Some o /\ o_data o = d /\ o_label o = true.
+                     lookup k (w_store w) = Some o /\ follows (o_data o) d = true /\ o_label o = true.
 Proof. exact @quiescent_equals_render. Qed.
 Print Assumptions C18_quiescent_equals_render.
 
@@ -329,7 +343,8 @@ Theorem C18_settled_pass :
     settled render scope_of w -> pass render scope_of ns_escalation iv_res iv_opt w = (w', r) ->
     settled render scope_of w' /\ p_err r = 0 /\ (exists t', w_tmpl w' = Some t' /\ t_invalid t' = 0) /\
     exists t k d, w_tmpl w = Some t /\ expected render scope_of t (w_store w) (w_env w) = Some (k, d) /\
-                  expected render scope_of t (w_store w') (w_env w') = Some (k, d) /\ target_writes (p_evs r) = [(k, d)].
+                  expected render scope_of t (w_store w') (w_env w') = Some (k, d) /\
+                  exists d', target_writes (p_evs r) = [(k, d')] /\ follows d' d = true.
 Proof. exact @settled_pass. Qed.
 Print Assumptions C18_settled_pass.
 
@@ -387,7 +402,7 @@ Theorem C18_quiescent_after_quiet_suffix :
     let w := final render scope_of ns_escalation iv_res iv_opt w0 (ss ++ [SPass] ++ suffix) in
     w_pending w = false ->
     exists t' k d o, w_tmpl w = Some t' /\ expected render scope_of t' (w_store w) (w_env w) = Some (k, d) /\
-                     lookup k (w_store w) = Some o /\ o_data o = d /\ o_lbl o = LTrue.
+                     lookup k (w_store w) = Some o /\ follows (o_data o) d = true /\ o_lbl o = LTrue.
 Proof. exact @quiescent_after_quiet_suffix. Qed.
 Print Assumptions C18_quiescent_after_quiet_suffix.
 
@@ -404,10 +419,10 @@ Theorem C18_passx_writes_render_of_reads :
     w_tmpl w = Some t -> passx render scope_of ns_escalation iv_res iv_opt a w = (w', r, rs) ->
     forall k d, In (k, d) (target_writes (p_evs r)) ->
       target_writes (p_evs r) = [(k, d)] /\
-      exists cfg k0 orefs,
+      exists cfg k0 body orefs,
         length rs = length (t_sources t) /\ cfg_of_reads (t_sources t) rs [] = Some cfg /\
-        render (t_code t) cfg (w_env w) = RObj k0 d orefs /\ pf_violation scope_of ns_escalation (t_ns t) k0 orefs = false /\
-        k = eff_key (t_ns t) k0.
+        render (t_code t) cfg (w_env w) = RObj k0 body orefs /\ follows d body = true /\
+        pf_violation scope_of ns_escalation (t_ns t) k0 orefs = false /\ k = eff_key (t_ns t) k0.
 Proof. exact (fun code render scope_of iv_res iv_opt a w0 ss =>
                 @passx_reads code render scope_of iv_res iv_opt a (final render scope_of ns_escalation iv_res iv_opt w0 ss)). Qed.
 Print Assumptions C18_passx_writes_render_of_reads.
